@@ -59,6 +59,11 @@ func lexNames(txt string) ([]string, int) {
 
 // generatedParserAccepts drives the real generated parser directly (own error listener, no repo listener).
 func generatedParserAccepts(txt string) bool {
+	ok, _, _ := generatedParserTree(txt)
+	return ok
+}
+
+func generatedParserTree(txt string) (bool, antlr.Tree, *parser.OpenFGAParser) {
 	lx := parser.NewOpenFGALexer(antlr.NewInputStream(txt))
 	lx.RemoveErrorListeners()
 	st := antlr.NewCommonTokenStream(lx, antlr.TokenDefaultChannel)
@@ -66,8 +71,66 @@ func generatedParserAccepts(txt string) bool {
 	pe := &countingListener{}
 	p.RemoveErrorListeners()
 	p.AddErrorListener(pe)
-	p.Main()
-	return pe.n == 0
+	t := p.Main()
+	return pe.n == 0, t, p
+}
+
+// treeConforms walks a parse tree of the generated parser: every rule node must carry a rule of the grammar and its
+// children (token names, rule names of the sub-trees) must be derivable from that rule in the .g4 on disk. Returns a
+// description of the first node that does not conform, and the number of rule nodes checked.
+func treeConforms(tg *g4.Grammar, t antlr.Tree, p *parser.OpenFGAParser) (string, int) {
+	nodes := 0
+	var bad string
+	var walk func(t antlr.Tree)
+	walk = func(t antlr.Tree) {
+		if bad != "" {
+			return
+		}
+		rc, ok := t.(antlr.RuleContext)
+		if !ok {
+			return
+		}
+		ri := rc.GetRuleIndex()
+		if ri < 0 || ri >= len(p.RuleNames) {
+			bad = fmt.Sprintf("node with rule index %d outside the %d rules", ri, len(p.RuleNames))
+			return
+		}
+		name := p.RuleNames[ri]
+		var seq []string
+		for _, ch := range t.GetChildren() {
+			switch c := ch.(type) {
+			case antlr.ErrorNode:
+				seq = append(seq, "<error>")
+			case antlr.TerminalNode:
+				tt := c.GetSymbol().GetTokenType()
+				switch {
+				case tt == antlr.TokenEOF:
+					seq = append(seq, "EOF")
+				case tt > 0 && tt < len(p.SymbolicNames):
+					seq = append(seq, p.SymbolicNames[tt])
+				default:
+					seq = append(seq, fmt.Sprintf("<%d>", tt))
+				}
+			case antlr.RuleContext:
+				ci := c.GetRuleIndex()
+				if ci >= 0 && ci < len(p.RuleNames) {
+					seq = append(seq, "@"+p.RuleNames[ci])
+				} else {
+					seq = append(seq, fmt.Sprintf("@<%d>", ci))
+				}
+			}
+		}
+		nodes++
+		if !tg.Accepts(name, seq) {
+			bad = fmt.Sprintf("node of rule %q (context %T) has children %v, which rule %q of OpenFGAParser.g4 does not derive", name, t, seq, name)
+			return
+		}
+		for _, ch := range t.GetChildren() {
+			walk(ch)
+		}
+	}
+	walk(t)
+	return bad, nodes
 }
 
 var (
@@ -94,7 +157,7 @@ func grammarVsParser1(run *core.Run, g *g4.Grammar, txt string, origin string) {
 		return // Earley is cubic; long inputs add nothing here
 	}
 	refOK := g.Accepts("main", tk)
-	realOK := generatedParserAccepts(txt)
+	realOK, tree, prs := generatedParserTree(txt)
 	run.Eval(2)
 	if refOK {
 		run.Count("texts_accepted_by_grammar", 1)
@@ -106,7 +169,28 @@ func grammarVsParser1(run *core.Run, g *g4.Grammar, txt string, origin string) {
 			fmt.Sprintf("OpenFGAParser.g4 (Earley) accepts: %v", refOK), fmt.Sprintf("generated Go parser accepts: %v; tokens %v", realOK, tk))
 		return
 	}
+	if realOK {
+		// layer 5: the tree the generated Go parser built is a derivation of the grammar on disk (the JS and Java
+		// packages are tied to the same grammar through layers 1-2, so their trees are the same derivations)
+		bad, nodes := treeConforms(treeGrammar(g), tree, prs)
+		run.Eval(1)
+		run.Count("parse_tree_nodes_checked_against_grammar", int64(nodes))
+		if bad != "" {
+			run.Violation("parse-tree-is-no-derivation-of-the-grammar", &core.Case{Kind: "text", DSL: txt, Extra: map[string]string{"origin": origin}}, "every node: children derivable from the node's rule in OpenFGAParser.g4", bad)
+			return
+		}
+	}
 	run.NonTrivial(strings.Join(tk, " "))
+}
+
+var (
+	treeGrammarOnce sync.Once
+	treeGrammarVal  *g4.Grammar
+)
+
+func treeGrammar(g *g4.Grammar) *g4.Grammar {
+	treeGrammarOnce.Do(func() { treeGrammarVal = g.TreeGrammar() })
+	return treeGrammarVal
 }
 
 func eqInts(a, b []int) string {
@@ -410,7 +494,7 @@ func tokenTexts() map[string][]string {
 
 func runC19(run *core.Run) {
 	run.Level = "translation_validation"
-	run.Rule = "layers 1-3: serialized ATN of parser and lexer extracted from the Go, TypeScript and Java sources and from the six .interp files, decoded and compared; fed to the real ATN deserializer and compared with the live recogniser; rule / literal / symbolic / mode name tables of the three packages, of the live Go recogniser and of the two .g4 files compared in order; listener method set vs. grammar rules; layer 4: for every text the token-type sequence of the real generated lexer is given to an Earley recogniser built from OpenFGAParser.g4 as it is on disk and to the real generated parser - accept <=> accept; texts = G2 renderings, G4 token-level mutants, and for every production of the grammar the shortest sentence using it in several spellings; non-trivial = text on which both sides were run; distinct by token-type sequence"
+	run.Rule = "layers 1-3: serialized ATN of parser and lexer extracted from the Go, TypeScript and Java sources and from the six .interp files, decoded and compared; fed to the real ATN deserializer and compared with the live recogniser; rule / literal / symbolic / mode name tables of the three packages, of the live Go recogniser and of the two .g4 files compared in order; listener method set vs. grammar rules; layer 4: for every text the token-type sequence of the real generated lexer is given to an Earley recogniser built from OpenFGAParser.g4 as it is on disk and to the real generated parser - accept <=> accept; texts = G2 renderings, G4 token-level mutants, and for every production of the grammar the shortest sentence using it in several spellings; layer 5: on accepted texts every rule node of the tree built by the generated Go parser must have children (token names, sub-tree rule names) derivable from the node's rule in the .g4 (Earley on the tree grammar); non-trivial = text on which both sides were run; distinct by token-type sequence"
 	artefactConformance(run)
 	g, err := parserGrammar()
 	if err != nil {
